@@ -90,6 +90,12 @@ void muggle_async_logger_destroy(muggle_logger_t *logger)
 {
 	muggle_async_logger_t *async_logger = (muggle_async_logger_t*)logger;
 
+	if (async_logger->channel.blocks == NULL)
+	{
+		// init failed before the channel (and the thread) existed: nothing to release
+		return;
+	}
+
 	muggle_channel_write(&async_logger->channel, NULL);
 	muggle_thread_join(&async_logger->thread);
 
